@@ -362,13 +362,16 @@ def c11(tier, rng, fam='C11'):
     # a caller that cancels with m responses unread
     for kind in ('bidi', 'ss'):
         for m in range(0, nmax + 1):
-            for others in (0, 2):
-                b = B(fam, '%s caller cancels with %d unread, %d bystanders' % (kind, m, others), ser=True)
+            for others, idle in ((0, 0), (2, 0), (1, 5000)):
+                # idle: the responses stay unread for a (virtual) while before the caller gives up
+                b = B(fam, '%s caller cancels with %d unread%s, %d bystanders' % (kind, m, ' after %d ms' % idle if idle else '', others), ser=True)
                 for o in range(others):
                     b.step('ucall', c=10 + o, pay='o%d' % o, hp=[])
                 hp = [dict(o='recv')] + [dict(o='send', pay='u%d' % i) for i in range(m)] + [dict(o='ctxwait'), ret(code=1, msg='gone')]
                 b.step('sopen', c=1, kind=kind, hp=hp)
                 b.step('send', c=1, pay='go')
+                if idle:
+                    b.step('adv', ms=idle)
                 b.step('cancel', c=1)
                 for o in range(others):
                     b.step('hop', c=10 + o, h=ret(pay='p%d' % o))
@@ -1068,4 +1071,32 @@ def late_messages(fam):
                 b.step('dlv', dir='c2s', n=-1)
                 b.step('dlv', dir='s2c', n=-1)
                 out.append(b.q().done())
+    return out
+
+
+def route_echo(tier, rng, fam='C16'):
+    """a server answers along the recorded route: requests arrive with route records of 0..4 hops (as after
+    that many proxies); every unary reply, error reply and reset carries the record without its last hop as
+    return route, in order (server.go: processUnaryRpc, resetStream)"""
+    out = []
+    hops = ['pA', 'pB', 'pC', 'pD']
+    U, S = METH['unary'], METH['bidi']
+    for n in range(0, 5):
+        for ser in (True, False):
+            rec = hops[:n]
+            b = B(fam, 'return route for a request that crossed %d proxies (%s)' % (n, 'serialising' if ser else 'by reference'), rawcli=True, ser=ser)
+            e = env(1, m=U, b='q1', src='cliX', dst='srv', c=101); e['rec'] = list(rec)
+            b.step('hops', c=101, hp=[ret(pay='p1')])
+            b.step('inj', dir='c2s', env=e)
+            e = env(2, m=U, b='q2', src='cliX', dst='srv', c=102); e['rec'] = list(rec)
+            b.step('hops', c=102, hp=[ret(code=5, msg='nope')])
+            b.step('inj', dir='c2s', env=e)
+            e = env(3, m=U, b='q3', src='cliX', dst='srv', md=[['k-bin', '!!!notbase64']], c=103); e['rec'] = list(rec)
+            b.step('inj', dir='c2s', env=e)
+            e = env(4, m=S, b='late', src='cliX', dst='srv'); e['rec'] = list(rec)
+            b.step('inj', dir='c2s', env=e)
+            e = env(5, m=U, b='q5', src='cliX', dst='srv', c=105); e['rec'] = list(reversed(rec))
+            b.step('hops', c=105, hp=[ret(pay='p5')])
+            b.step('inj', dir='c2s', env=e)
+            out.append(b.q().done())
     return out
